@@ -12,6 +12,7 @@ CONSTANTS
   Variant = "shipped"
   NConn = 1
   MaxSteps = 3
+  Routes = {"typed"}
   Mech = "shipped"
 INIT SInit
 NEXT SNext
